@@ -188,8 +188,13 @@ structure RankOps (ρ : Type) where
 
 /-! #### Rank as a natural number: the Python int of fontTools that `Rank` emulates -/
 
-def popcount (n : Nat) : Nat := if n = 0 then 0 else n % 2 + popcount (n / 2)
-decreasing_by omega
+/-- number of set bits (`int.bit_count`), by structural recursion on a fuel so that it evaluates in the
+    kernel; `n` itself is always enough fuel -/
+def popcountAux : Nat → Nat → Nat
+  | 0, _ => 0
+  | f + 1, n => if n = 0 then 0 else n % 2 + popcountAux f (n / 2)
+
+def popcount (n : Nat) : Nat := popcountAux n n
 
 def natOps : RankOps Nat where
   zero := 0
